@@ -52,6 +52,10 @@ func (p *ClonePool) Mark(v Value, flags MarkFlags) {
 		return
 	}
 	if !ok {
+		// v may still carry the Go finalizer of another pool (e.g. the pool
+		// of a runtime context that has ended, or of an enclosing one):
+		// setting a finalizer on top of it is a fatal error in Go.
+		setFinalizer(v, nil)
 		setFinalizer(v, p.goFinalizer)
 	}
 	c.value = v.Clone()
